@@ -19,7 +19,7 @@ timestamp.  Three things keep it a snapshot:
   trivial move, garbage collection), snapshots and releases: while a cursor has not released its
   reference, every file of its version is in `sst/` — so the lazy cursors, which open their files
   by path on first use, find them.  This needs the cursor to OWN its reference
-  (fixes/d5-range-scan-cursor-owns-version-ref.diff); the code as it was released the reference
+  (/repo fix 7dd8413); the code as it was released the reference
   before returning the cursor: `reference_released_at_open_loses_files` (finding D-5).
 * **memory** (`Blue.SkipLife`, from C17): the skiplist nodes of a memtable are owned jointly by the
   list handle and every iterator; nothing is released while a handle is held, everything when the
